@@ -39,5 +39,20 @@ TEXTS = {
   "level": "exploration: valid configurations over the documented layout must be accepted and every enumeration getter (boards, accessories with aspects, peripherals, segments, reversers, boosters, track outputs, trains, functions, features, unique ids, initial snapshot) must equal the reference; each single fault of the statement's list must make start return 1 and stop cleanly",
   "note": "reference semantics in harness/config.cpp written from the example configurations and the statement; getter results compared as multisets (order not asserted)",
  },
+ "C09": {
+  "technique": "model-based property-based testing (rapidcheck): generated configurations, trees and high-level call sequences (valid / unknown / disconnected / NULL / out-of-range) against a reference encoder for the high-level layer and a snapshot-diff oracle",
+  "level": "exploration: every kind of high-level command over generated configurations and connected subsets; valid calls must return 0, put exactly the prescribed message(s) on the wire to the owning board's current address (masked comparison for inactive drive groups) and change only the commanded entity; invalid calls must return 1, send nothing and leave the snapshot unchanged; a function-state model covers history-dependent function groups",
+  "note": "reference encodings in props/c09.cpp written from include/highlevel/*.h and the BiDiB drive/accessory message layout; bus simulator answers every request",
+ },
+ "C15": {
+  "technique": "model-based property-based testing (rapidcheck): generated node trees (3 levels, nested and unknown interfaces), enumeration with table-change interruptions (optionally with a node leaving), generated node-lost/node-new histories and commands against a reference node-table model",
+  "level": "exploration: connectivity and addresses reported by the getters must equal the tree model after startup and after every notice; every notice must be acknowledged exactly once to its sender with the announced version without a flush; commands go to the current address of connected boards only",
+  "note": "tree model in props/c15.cpp; bus simulator in harness/bus.cpp written from the BiDiB node-table description",
+ },
+ "C20": {
+  "technique": "property-based testing (rapidcheck) with a transcript oracle: generated configurations x connected subsets x bus behaviours (feature mismatch, table change, capacity); required/forbidden/order constraints over the complete decoded startup and reset transcript",
+  "level": "exploration: for every start and every additional system reset the decoded downlink transcript must contain exactly the configured feature settings of connected boards (before SYS_ENABLE), one GO per connected track output (after it), exactly the configured initial values with the C09 encoding (after GO), nothing for nodes that are not connected configured boards, and consecutive sequence numbers restarting after the reset",
+  "note": "multiset comparison with masked drive groups; tolerated traffic listed in the assumptions",
+ },
 }
 NOT_YET = {}
